@@ -375,3 +375,20 @@ pub fn check_unescape_shape(raw: &[u8], tpl: &'static [u8]) -> Outcome {
     core::mem::forget(got);
     Outcome::Pass
 }
+
+/// K1 for non-ASCII text: every 2-byte UTF-8 scalar (U+0080..U+07FF) passes through every level
+/// untouched and borrowed (escaping looks at bytes; a multi-byte character never contains a special byte).
+/// raw: [b0, b1]
+pub fn check_escape_u2(raw: &[u8], level: u8) -> Outcome {
+    let b0 = raw[0];
+    let b1 = raw[1];
+    require!(b0 >= 0xC2 && b0 <= 0xDF && b1 >= 0x80 && b1 <= 0xBF);
+    let buf = [b'a', b0, b1];
+    let s = as_str(&buf);
+    let out = level_fn(level, s);
+    ensure!(matches!(out, Cow::Borrowed(_)), "C10: escaping borrows iff nothing was replaced");
+    let o = out.as_bytes();
+    ensure!(o.len() == 3 && o[0] == b'a' && o[1] == b0 && o[2] == b1, "C10: escaping replaces exactly the characters of its level");
+    core::mem::forget(out);
+    Outcome::Pass
+}
